@@ -150,6 +150,8 @@ class CFG:
     # ---------------------------------------------------------------- conditional edges
     def cond_edges(self):
         """[(block, succ, cond_node_id, truth)] for two-way branches (succ[0]=true, succ[1]=false)."""
+        if getattr(self, "_cond_edges", None) is not None:
+            return self._cond_edges
         out = []
         for bid, b in self.blocks.items():
             if "tcond" not in b:
@@ -158,11 +160,28 @@ class CFG:
                 continue
             ss = self.succ[bid]
             if len(ss) == 2:
+                c, flip = self._effective_cond(b["tcond"])
                 if ss[0] is not None:
-                    out.append((bid, ss[0], b["tcond"], True))
+                    out.append((bid, ss[0], c, not flip))
                 if ss[1] is not None:
-                    out.append((bid, ss[1], b["tcond"], False))
+                    out.append((bid, ss[1], c, flip))
+        self._cond_edges = out
         return out
+
+    def _effective_cond(self, cid):
+        """The operand whose value decides this branch: clang reports the whole `A && B` as the condition of the
+        block that evaluates its last operand; `!x` is folded into the edge polarity."""
+        flip = False
+        n = self.func.node_by_id(cid)
+        while n is not None:
+            if n.get("k") == "bin" and n.get("op") in ("&&", "||"):
+                n = n["rhs"]
+            elif n.get("k") == "un" and n.get("op") == "!":
+                n = n["e"]
+                flip = not flip
+            else:
+                break
+        return (n["id"] if n is not None else cid), flip
 
     def guards_of_block(self, blk):
         """Set of (cond_node_id, truth) such that every path entry->blk traverses an edge labelled with it."""
